@@ -63,8 +63,15 @@ fn parse_content(
                         Span::new(base_position + position, base_position + end_position),
                     )
                 })?;
+                // only digits are allowed (the integer parsers also accept a sign)
                 let code = if first_char == 'x' {
-                    u32::from_str_radix(&entity[1..], 16)
+                    if !entity[1..].bytes().all(|b| b.is_ascii_hexdigit()) {
+                        "".parse::<u32>()
+                    } else {
+                        u32::from_str_radix(&entity[1..], 16)
+                    }
+                } else if !entity.bytes().all(|b| b.is_ascii_digit()) {
+                    "".parse::<u32>()
                 } else {
                     entity.parse::<u32>()
                 };
@@ -74,12 +81,18 @@ fn parse_content(
                         Span::new(base_position + position, base_position + end_position),
                     )
                 })?;
-                let c = std::char::from_u32(code).ok_or_else(|| {
-                    ParseError::InvalidEntity(
-                        entity.to_string(),
-                        Span::new(base_position + position, base_position + end_position),
-                    )
-                })?;
+                // the character has to be an XML character
+                // https://www.w3.org/TR/xml/#NT-Char
+                let c = std::char::from_u32(code)
+                    .filter(|c| {
+                        matches!(c, '\t' | '\n' | '\r' | '\u{20}'..='\u{D7FF}' | '\u{E000}'..='\u{FFFD}' | '\u{10000}'..='\u{10FFFF}')
+                    })
+                    .ok_or_else(|| {
+                        ParseError::InvalidEntity(
+                            entity.to_string(),
+                            Span::new(base_position + position, base_position + end_position),
+                        )
+                    })?;
                 result.push(c);
             } else {
                 match entity.as_str() {
